@@ -59,6 +59,11 @@ unsigned long g_n;
 #define NODE_OF_TOK(r, k, ty)                                                             \
   (N_(r)->t == (ty) && N_(r)->line == g_toks[k].line && N_(r)->file._id == g_toks[k].file._id && N_(r)->tok._id == g_toks[k].text._id)
 
+/* m is the MARK node of an END keyword: it wraps the NAME node made from the END token and carries that node's position */
+#define MARK_OK(m)                                                                        \
+  ((m) != 0 && N_(m)->t == NT_MARK && N_(m)->left != 0 && N_(N_(m)->left)->t == NT_NAME && N_(m)->line == N_(N_(m)->left)->line && \
+   N_(m)->file._id == N_(N_(m)->left)->file._id)
+
 /* ------------------------------------------------------------------ ParseState::lookahead / match / matchmk, AST::mk */
 int c_lookahead(void *ps)
 REQ_TOK(ps)
@@ -197,14 +202,28 @@ ASSIGNS_PARSE
 ENS_MONO
 __CPROVER_ensures(FRESH_OR_NULL(__CPROVER_return_value)) /*@C02*/
 /* P has no empty production: no node only with an error */
-__CPROVER_ensures(__CPROVER_return_value != 0 || NERR > OLD(NERR)) /*@C04,C02*/;
+__CPROVER_ensures(__CPROVER_return_value != 0 || NERR > OLD(NERR)) /*@C04,C02*/
+/* C07: the END keyword of a LOOP / WHILE is kept as a MARK whose position is that of the END token itself
+ * (the NAME node made from it by matchmk), so the END line gets its own breakpoint site */
+__CPROVER_ensures((OLD(LA) != TK_LOOP && OLD(LA) != TK_WHILE) ||
+                  (__CPROVER_return_value != 0 && N_(__CPROVER_return_value)->t == NT_SPLIT && N_(__CPROVER_return_value)->left != 0 &&
+                   N_(N_(__CPROVER_return_value)->left)->t == NT_SPLIT && N_(N_(__CPROVER_return_value)->left)->left != 0 &&
+                   N_(N_(N_(__CPROVER_return_value)->left)->left)->t == (OLD(LA) == TK_LOOP ? NT_LOOP : NT_WHILE) &&
+                   MARK_OK(N_(N_(__CPROVER_return_value)->left)->right))) /*@C07,C04,C08*/;
 
 void *c_S(void *ps)
 REQ_TOK(ps)
 ASSIGNS_PARSE
 ENS_MONO
 __CPROVER_ensures(FRESH_OR_NULL(__CPROVER_return_value)) /*@C02*/
-__CPROVER_ensures(__CPROVER_return_value != 0 || NERR > OLD(NERR)) /*@C04,C02*/;
+__CPROVER_ensures(__CPROVER_return_value != 0 || NERR > OLD(NERR)) /*@C04,C02*/
+/* S -> program id PORTS do P end S : tree(name, ports-or-NONE) / tree(body, MARK of the END token) */
+__CPROVER_ensures(OLD(LA) != TK_PROGRAM ||
+                  (__CPROVER_return_value != 0 && N_(__CPROVER_return_value)->t == NT_SPLIT && N_(__CPROVER_return_value)->left != 0 &&
+                   N_(N_(__CPROVER_return_value)->left)->t == NT_PROGRAM && N_(N_(__CPROVER_return_value)->left)->left != 0 &&
+                   N_(N_(N_(__CPROVER_return_value)->left)->left)->left != 0 &&
+                   N_(N_(N_(N_(__CPROVER_return_value)->left)->left)->left)->t == NT_NAME &&
+                   N_(N_(__CPROVER_return_value)->left)->right != 0 && MARK_OK(N_(N_(N_(__CPROVER_return_value)->left)->right)->right))) /*@C07,C04,C02*/;
 
 void c_expected_end_or_semicolon(void *ps)
 REQ_TOK(ps)
